@@ -18,11 +18,14 @@ PROP = dict(
                      'SetLogo is called before SetFont (documented API contract)'],
         level_text='Lean theorems for all geometries in the stated domain and all 32-bit arguments, for both consoles: '
                    'write_frame (text cell / glyph bits -> packed fg, rest -> packed bg, all five depths), fill_clip, scroll_exact, '
-                   'no_oob, padding and logo rows untouched, pack_color/pack_component (models with checked framebuffer access and '
+                   'no_oob, padding and logo rows untouched, pack_color/pack_component, and refines_grid: both consoles refine the '
+                   'abstract cell-grid console of C18 (Spec/Term.lean) for CallOk calls and whole call logs (models with checked framebuffer access and '
                    '32-bit wrap-around arithmetic, specs pointwise in unbounded arithmetic). Tied to the Go code by regenerated '
                    'constants/font metadata and a differential run with full framebuffer diffs, guard bytes and row padding.',
         level_note='Trusted: Lean kernel (+ propext, Classical.choice, Quot.sound), the theorem statements and Spec/Console.lean, '
                    'the harness (correspondence is differential testing on generated inputs, not a proof about the Go code); '
                    'SetLogo drawing is checked by the oracle only (containment), not modelled. '
+                   'refines_grid for pixel Scroll needs a text area of whole glyph rows (otherwise only the moved lines are claimed: '
+                   'pix_refines_grid_scroll_moved) and a blank space glyph (generated fact for the shipped fonts). '
                    'D9, D10, D11 were confirmed by the oracle on the unrepaired tree and repaired in /repo.',
 )
